@@ -351,7 +351,7 @@ Definition l_keys (s : list N) : list (list N) :=
   match s with [] => [] | _ => drop_last_empty (split_all 58 s) end.
 
 (* Fields::samples + Samples::keys / Samples::iter + Sample::iter.  cols = the pieces after
-   INFO.  No column, or FORMAT ".", is no samples at all; FORMAT alone has no keys either
+   INFO.  No column is no samples at all; FORMAT alone (also ".") has neither keys nor samples
    (split_once(TAB) fails). *)
 Definition l_samples (h : hctx) (cols : list (list N))
   : option (list (list N) * list (list (option value))) :=
@@ -361,9 +361,8 @@ Definition l_samples (h : hctx) (cols : list (list N))
       match rest with
       | [] => Some ([], [])
       | _ =>
-        if bytes_eqb f dot then Some ([], [])
-        else
-          let ks := l_keys f in
+          (* Samples::keys: a missing FORMAT column has no keys (6449b9b); the samples stay *)
+          let ks := if bytes_eqb f dot then [] else l_keys f in
           let ds := map (fdef_of h) ks in
           match sequence (map (parse_sample_lazy prs_float ds) (drop_last_empty rest)) with
           | Some rows => Some (ks, rows)
